@@ -228,6 +228,30 @@ def main(tier_: str) -> int:
                     rr = c.get(url, headers={'Range': raw})
                     lines.append({'tid': tid, 'layer': 'http', 'h': classify(raw), 'L': L, 'mandatory': 1, 'raw': raw, 'url': f'{url} (generation {gen + 1})',
                                   'r': project(rr.status_code, dict(rr.headers), rr.data, content, L)})
+            # ---- a file that the service re-writes itself (edit of track id / language: every fragment is parsed, changed and written
+            # to a new blob): the ranges of the re-written file are those of the bytes now on disk
+            content = (fx / 'bbb_t1.mp4').read_bytes()
+            tok = ms.harvest(spk).get('upload', '')
+            ur = ms.request('POST', f'/media/{spk}/blob?ajax=1', data={'csrf_token': tok, 'file': (io.BytesIO(content), 'edit_t8.mp4')},
+                            content_type='multipart/form-data')
+            mfid = (ur.get_json(silent=True) or {}).get('pk')
+            if not mfid:
+                raise MachineryFailure(f'upload of the editable file failed: {ur.status_code}')
+            ms.request('GET', f'/media/index/{mfid}?csrf_token={ms.mint("files")}&ajax=1')
+            before = {p.name for p in fx.iterdir()}
+            er = ms.request('POST', f'/stream/{spk}/{mfid}/edit', data={'csrf_token': ms.mint('files'), 'track_id': '9', 'lang': 'deu'})
+            newf = sorted(p for p in fx.iterdir() if p.name not in before)
+            if er.status_code >= 400 or len(newf) != 1:
+                raise MachineryFailure(f'edit of the media file did not produce one new blob: {er.status_code} {[p.name for p in newf]}')
+            content = newf[0].read_bytes()
+            L = len(content)
+            url = '/dash/odvod/bbb/edit_t8.mp4'
+            for raw in ['bytes=0-', 'bytes=-100', f'bytes={L}-', f'bytes={L - 1}-', f'bytes=0-{L - 1}', f'bytes=-{L + 1}', 'bytes=600-', 'bytes=10-19',
+                        f'bytes={L - 10}-{L + 10}', f'bytes={L - 50}-', f'bytes={L // 2}-{L - 1}']:
+                tid += 1
+                rr = c.get(url, headers={'Range': raw})
+                lines.append({'tid': tid, 'layer': 'http', 'h': classify(raw), 'L': L, 'mandatory': 1, 'raw': raw, 'url': f'{url} (re-written by an edit)',
+                              'r': project(rr.status_code, dict(rr.headers), rr.data, content, L)})
         vs, st = validate_trace('HttpRangeTrace', lines, workdir=d, chunk=5000, parallel=4)
         drift = 0
         for v in vs:
